@@ -509,11 +509,12 @@ class Driver:
                 return
             if getattr(self, "last_run_where", None) != "future":
                 return
-            if self.inj_pos < len(self.inject):
+            effective = False
+            while self.inj_pos < len(self.inject) and not effective:
                 inj = self.inject[self.inj_pos]
                 self.inj_pos += 1
-                self.fire(inj)
-            else:
+                effective = self.fire(inj)
+            if not effective:
                 # dead-lock: release everything so the case terminates, and say so
                 fired = False
                 for sid, ev in self.events.items():
@@ -572,16 +573,21 @@ class Driver:
             RE.request_suspend(ev.wait, pre_plan=pre_p, post_plan=post_p, justification=inj.get("just"))
         elif r == "release":
             sid = inj["sid"]
-            if sid in self.events:
+            if sid in self.events and not self.events[sid].is_set():
                 self.sched.append(["inject", "release", sid])
                 self.events[sid].set()
+                return True
+            return False
         elif r == "status":
             sid = inj["sid"]
-            if sid < len(self.statuses):
+            if sid < len(self.statuses) and not self.statuses[sid].done:
                 self.sched.append(["inject", "status", sid, bool(inj.get("ok", True))])
                 self.statuses[sid].finish(inj.get("ok", True))
+                return True
+            return False
         else:
             raise ValueError(r)
+        return True
 
     def on_msg(self, m):
         with self.lock:
@@ -791,6 +797,8 @@ def settle(loop):
 def run_case(case, timeout=20.0):
     """Run one case; a case that does not finish within `timeout` s is reported as a driver error
     (its thread is abandoned; pool workers are recycled)."""
+    import bluesky.run_engine  # noqa: F401  (the first import can take seconds under load: keep it out of the timed part)
+    import bluesky.plans  # noqa: F401
     d = Driver(case)
     box = {}
 
